@@ -1,11 +1,445 @@
-(* C03 — dense matrix and vector algebra.  Property theorems only (statements about the executable
-   model SC.C03.Model, which the correspondence check ties to src/linalg/naive/dense_matrix.rs,
-   src/linalg/mod.rs, src/linalg/stats.rs, src/linalg/high_order.rs). *)
-From Coq Require Import List Arith Bool Lia.
-From SC Require Import Base.Num C03.Model C03.ProofsBase.
+(* C03 — dense matrix and vector algebra.  Property theorems only: every theorem is closed by an
+   `exact`/`apply` of a lemma of SC.C03.Proofs*.  Statements are about the executable model
+   SC.C03.Model (column-major `dm T` exactly like the Rust struct; a panic is `None`), which the
+   correspondence check ties to src/linalg/naive/dense_matrix.rs, src/linalg/mod.rs,
+   src/linalg/stats.rs and src/linalg/high_order.rs.  `get K m r c` is the logical
+   rows-by-columns view; `wf m` says the storage vector has nrows*ncols entries (true of every
+   matrix the constructors and operations return).  Theorems over `T`/`K` hold for every scalar
+   type (in particular for binary64 with its roundings); theorems over `ROps` are statements in
+   exact real arithmetic. *)
+From Coq Require Import List Arith Bool Lia Reals Sorted.
+From SC Require Import Base.Num C03.Model C03.ProofsBase C03.ProofsAlg C03.ProofsRed C03.ProofsOrd.
 Import ListNotations.
+Local Open Scope nat_scope.
 
-(* The addressing lemma: column-major tabulation and `get` are mutually inverse. *)
+(* ================= addressing ================= *)
+
+(* Column-major tabulation and `get` are mutually inverse: a fill-every-cell loop produces the matrix
+   whose logical view is f ... *)
 Theorem C03_get_tab : forall (T : Type) (K : Ops T) n p (f : nat -> nat -> T) r c,
   r < n -> c < p -> get K (tab n p f) r c = f r c.
 Proof. intros T K. exact (get_tab K). Qed.
+
+(* ... and re-tabulating the view of a well-formed matrix gives back its storage. *)
+Theorem C03_tab_get : forall (T : Type) (K : Ops T) (m : dm T),
+  wf m -> tab (nrows m) (ncols m) (get K m) = m.
+Proof. intros T K. exact (tab_get K). Qed.
+
+(* Hence a well-formed matrix is determined by its shape and its logical view. *)
+Theorem C03_view_extensionality : forall (T : Type) (K : Ops T) (a b : dm T),
+  wf a -> wf b -> nrows a = nrows b -> ncols a = ncols b ->
+  (forall r c, r < nrows a -> c < ncols a -> get K a r c = get K b r c) -> a = b.
+Proof. intros T K. exact (dm_ext K). Qed.
+
+(* ================= construction ================= *)
+
+(* from_array / from_vec read ROW-major data: entry (r,c) is values[r*ncols + c]; too few values panic. *)
+Theorem C03_from_array_view : forall (T : Type) (K : Ops T) n p (vals : list T),
+  (length vals < n * p -> from_vec K n p vals = None) /\
+  (n * p <= length vals -> exists m, from_vec K n p vals = Some m /\ nrows m = n /\ ncols m = p /\ wf m /\
+     forall r c, r < n -> c < p -> get K m r c = nth (r * p + c) vals (o0 K)).
+Proof. intros T K. exact (from_vec_spec K). Qed.
+
+Theorem C03_from_2d_array_view : forall (T : Type) (K : Ops T) (first : list T) (rest : list (list T)),
+  exists m, from_2d_vec K (first :: rest) = Some m /\ nrows m = S (length rest) /\ ncols m = length first /\ wf m /\
+    forall r c, r < S (length rest) -> c < length first ->
+      get K m r c = nth c (nth r (first :: rest) []) (o0 K).
+Proof. intros T K. exact (from_2d_vec_spec K). Qed.
+
+Theorem C03_row_column_vectors : forall (T : Type) (K : Ops T) (v : list T) i,
+  get K (row_vector_from_vec v) 0 i = nth i v (o0 K) /\ get K (column_vector_from_vec v) i 0 = nth i v (o0 K) /\
+  shape (row_vector_from_vec v) = (1, length v) /\ shape (column_vector_from_vec v) = (length v, 1) /\
+  wf (row_vector_from_vec v) /\ wf (column_vector_from_vec v).
+Proof.
+  intros T K v i.
+  split; [exact (row_vector_get K v i)|]. split; [exact (column_vector_get K v i)|].
+  split; [reflexivity|]. split; [reflexivity|].
+  split; [exact (row_vector_wf v) | exact (column_vector_wf v)].
+Qed.
+
+Theorem C03_fill_eye_view : forall (T : Type) (K : Ops T) n p (v : T) r c,
+  (r < n -> c < p -> get K (fill n p v) r c = v) /\ wf (fill n p v) /\
+  (r < n -> c < n -> get K (eye K n) r c = if Nat.eqb r c then o1 K else o0 K).
+Proof.
+  intros T K n p v r c. split; [exact (get_fill K n p v r c)|]. split; [exact (fill_wf n p v)|].
+  exact (get_eye K n r c).
+Qed.
+
+(* ================= get / set, rows, columns, iteration order ================= *)
+
+Theorem C03_get_bounds : forall (T : Type) (K : Ops T) (m : dm T) r c, wf m ->
+  get_chk m r c = if (r <? nrows m) && (c <? ncols m) then Some (get K m r c) else None.
+Proof. intros T K. exact (get_chk_spec K). Qed.
+
+Theorem C03_set_get : forall (T : Type) (K : Ops T) (m : dm T) r c (v : T),
+  wf m -> r < nrows m -> c < ncols m ->
+  exists m', set m r c v = Some m' /\ nrows m' = nrows m /\ ncols m' = ncols m /\ wf m' /\
+    forall r' c', r' < nrows m -> c' < ncols m ->
+      get K m' r' c' = if Nat.eqb r' r && Nat.eqb c' c then v else get K m r' c'.
+Proof. intros T K. exact (set_spec K). Qed.
+
+(* iter() and to_row_vector() enumerate the logical view in row-major order, for every shape *)
+Theorem C03_iter_row_major : forall (T : Type) (K : Ops T) (m : dm T),
+  to_row_vector K m = row_major K m /\ length (row_major K m) = nrows m * ncols m /\
+  (forall r c, r < nrows m -> c < ncols m -> nth (r * ncols m + c) (row_major K m) (o0 K) = get K m r c) /\
+  (forall k, k < nrows m * ncols m -> nth k (row_major K m) (o0 K) = get K m (k / ncols m) (k mod ncols m)).
+Proof.
+  intros T K m. split; [reflexivity|]. split; [exact (row_major_length K m)|].
+  split; [exact (nth_row_major K m) | exact (nth_row_major_divmod K m)].
+Qed.
+
+Theorem C03_get_row_col : forall (T : Type) (K : Ops T) (m : dm T),
+  (forall r, r < nrows m -> exists row, get_row K m r = Some row /\ length row = ncols m /\
+      forall c, c < ncols m -> nth c row (o0 K) = get K m r c) /\
+  (forall c, c < ncols m -> exists col, get_col K m c = Some col /\ length col = nrows m /\
+      forall r, r < nrows m -> nth r col (o0 K) = get K m r c) /\
+  (forall r, nrows m <= r -> 0 < ncols m -> get_row K m r = None) /\
+  (forall c, ncols m <= c -> 0 < nrows m -> get_col K m c = None).
+Proof.
+  intros T K m. repeat split.
+  - intros r Hr. destruct (get_row_some K m r Hr) as [row Hrow]. exists row. split; [exact Hrow|].
+    split.
+    + unfold get_row in Hrow. destruct ((nrows m <=? r) && (0 <? ncols m)); [discriminate|].
+      injection Hrow as <-. rewrite map_length, seq_length. reflexivity.
+    + intros c Hc. exact (proj2 (get_row_nth K m r row c Hrow Hc)).
+  - intros c Hc. destruct (get_col_some K m c Hc) as [col Hcol]. exists col. split; [exact Hcol|].
+    split.
+    + unfold get_col in Hcol. destruct ((ncols m <=? c) && (0 <? nrows m)); [discriminate|].
+      injection Hcol as <-. rewrite map_length, seq_length. reflexivity.
+    + intros r Hr. exact (proj2 (get_col_nth K m c col r Hcol Hr)).
+  - exact (get_row_none K m).
+  - exact (get_col_none K m).
+Qed.
+
+(* ================= transpose, stacking, slicing, reshape, take ================= *)
+
+Theorem C03_transpose_view : forall (T : Type) (K : Ops T) (m : dm T),
+  nrows (transpose K m) = ncols m /\ ncols (transpose K m) = nrows m /\ wf (transpose K m) /\
+  (forall r c, r < ncols m -> c < nrows m -> get K (transpose K m) r c = get K m c r) /\
+  (wf m -> transpose K (transpose K m) = m).
+Proof.
+  intros T K m. destruct (transpose_shape K m) as [H1 [H2 H3]]. repeat split; try assumption.
+  - exact (get_transpose K m).
+  - exact (transpose_involutive K m).
+Qed.
+
+Theorem C03_v_stack_view : forall (T : Type) (K : Ops T) (a b : dm T),
+  (ncols a <> ncols b -> v_stack K a b = None) /\
+  (ncols a = ncols b -> exists m, v_stack K a b = Some m /\ nrows m = nrows a + nrows b /\ ncols m = ncols a /\ wf m /\
+     forall r c, r < nrows a + nrows b -> c < ncols a ->
+       get K m r c = if r <? nrows a then get K a r c else get K b (r - nrows a) c).
+Proof. intros T K. exact (v_stack_spec K). Qed.
+
+Theorem C03_h_stack_view : forall (T : Type) (K : Ops T) (a b : dm T),
+  (nrows a <> nrows b -> h_stack K a b = None) /\
+  (nrows a = nrows b -> exists m, h_stack K a b = Some m /\ nrows m = nrows a /\ ncols m = ncols a + ncols b /\ wf m /\
+     forall r c, r < nrows a -> c < ncols a + ncols b ->
+       get K m r c = if c <? ncols a then get K a r c else get K b r (c - ncols a)).
+Proof. intros T K. exact (h_stack_spec K). Qed.
+
+Theorem C03_slice_view : forall (T : Type) (K : Ops T) (m : dm T) r0 r1 c0 c1,
+  (r0 < r1 -> c0 < c1 -> (nrows m < r1 \/ ncols m < c1) -> slice K m r0 r1 c0 c1 = None) /\
+  ((r1 <= nrows m /\ c1 <= ncols m) \/ r1 <= r0 \/ c1 <= c0 ->
+     exists s, slice K m r0 r1 c0 c1 = Some s /\ nrows s = r1 - r0 /\ ncols s = c1 - c0 /\ wf s /\
+       forall r c, r < r1 - r0 -> c < c1 - c0 -> get K s r c = get K m (r + r0) (c + c0)).
+Proof. intros T K. exact (slice_spec K). Qed.
+
+(* reshape keeps the logical row-major order for EVERY source and target shape (div/mod addressing),
+   and rejects a target with a different number of elements *)
+Theorem C03_reshape_row_major : forall (T : Type) (K : Ops T) (m : dm T) n p,
+  (nrows m * ncols m <> n * p -> reshape K m n p = None) /\
+  (nrows m * ncols m = n * p ->
+     exists m', reshape K m n p = Some m' /\ nrows m' = n /\ ncols m' = p /\ wf m' /\
+       row_major K m' = row_major K m /\
+       forall r c, r < n -> c < p -> get K m' r c = nth (r * p + c) (row_major K m) (o0 K)).
+Proof. intros T K m n p. split; [exact (reshape_none K m n p) | exact (reshape_spec K m n p)]. Qed.
+
+Theorem C03_take_rows_view : forall (T : Type) (K : Ops T) (m : dm T) (index : list nat),
+  ((exists i, In i index /\ nrows m <= i) -> 0 < ncols m -> take K m index true = None) /\
+  ((forall i, In i index -> i < nrows m) ->
+     exists t, take K m index true = Some t /\ nrows t = length index /\ ncols t = ncols m /\ wf t /\
+       forall i j, i < length index -> j < ncols m -> get K t i j = get K m (nth i index 0) j).
+Proof. intros T K. exact (take_rows_spec K). Qed.
+
+Theorem C03_take_cols_view : forall (T : Type) (K : Ops T) (m : dm T) (index : list nat),
+  ((exists i, In i index /\ ncols m <= i) -> 0 < nrows m -> take K m index false = None) /\
+  ((forall i, In i index -> i < ncols m) ->
+     exists t, take K m index false = Some t /\ nrows t = nrows m /\ ncols t = length index /\ wf t /\
+       forall j i, j < nrows m -> i < length index -> get K t j i = get K m j (nth i index 0)).
+Proof. intros T K. exact (take_cols_spec K). Qed.
+
+Theorem C03_copy_from_contract : forall (T : Type) (a b : dm T), wf a -> wf b ->
+  copy_from a b = if (nrows a =? nrows b) && (ncols a =? ncols b) then Some b else None.
+Proof. intros T. exact (@copy_from_spec T). Qed.
+
+(* ================= products ================= *)
+
+Theorem C03_matmul_view : forall (T : Type) (K : Ops T) (a b : dm T),
+  (ncols a <> nrows b -> matmul K a b = None) /\
+  (ncols a = nrows b -> exists m, matmul K a b = Some m /\ nrows m = nrows a /\ ncols m = ncols b /\ wf m /\
+     forall r c, r < nrows a -> c < ncols b ->
+       get K m r c = osumn K (ncols a) (fun i => omul K (get K a r i) (get K b i c))).
+Proof. intros T K a b. split; [exact (matmul_none K a b) | exact (matmul_spec K a b)]. Qed.
+
+(* `ab` with any of the four flag combinations is exactly (same shape test, same sums, same roundings)
+   the product of the correspondingly transposed operands *)
+Theorem C03_ab_flags : forall (T : Type) (K : Ops T) (a b : dm T) (ta tb : bool),
+  ab K a ta b tb = matmul K (if ta then transpose K a else a) (if tb then transpose K b else b).
+Proof. intros T K a b ta tb. exact (ab_matmul_transpose K a ta b tb). Qed.
+
+(* dot: accepted exactly for two vectors (each a row or a column) with the same number of elements, and
+   then it is the inner product in logical order whatever the two orientations *)
+Theorem C03_dot_contract : forall (T : Type) (K : Ops T) (a b : dm T),
+  (dot K a b = None <-> ~ both_vectors_same_size a b) /\
+  (both_vectors_same_size a b ->
+     dot K a b = Some (osumn K (nrows a * ncols a) (fun i => omul K (vec_at K a i) (vec_at K b i)))).
+Proof. intros T K a b. split; [exact (dot_none_iff K a b) | exact (dot_spec K a b)]. Qed.
+
+(* ================= element-wise and scalar arithmetic ================= *)
+
+(* add / sub / mul / div (= zip_with of the scalar operation; the in-place and the copying methods of the
+   implementation are both checked against this one function) *)
+Theorem C03_elementwise_view : forall (T : Type) (K : Ops T) (f : T -> T -> T) (a b : dm T),
+  (zip_with K f a b = None <-> (nrows a <> nrows b \/ ncols a <> ncols b)) /\
+  (nrows a = nrows b -> ncols a = ncols b ->
+     exists m, zip_with K f a b = Some m /\ nrows m = nrows a /\ ncols m = ncols a /\ wf m /\
+       forall r c, r < nrows a -> c < ncols a -> get K m r c = f (get K a r c) (get K b r c)).
+Proof. intros T K f a b. split; [exact (zip_with_none_iff K f a b) | exact (zip_with_spec K f a b)]. Qed.
+
+Theorem C03_add_sub_mul_div : forall (T : Type) (K : Ops T),
+  add K = zip_with K (oadd K) /\ sub K = zip_with K (osub K) /\ mul K = zip_with K (omul K) /\ div K = zip_with K (odiv K).
+Proof. intros T K. repeat split. Qed.
+
+(* scalar arithmetic, negative, abs, pow are entrywise maps; binarize is the threshold indicator *)
+Theorem C03_map_view : forall (T : Type) (K : Ops T) (f : T -> T) (m : dm T) r c,
+  nrows (map_values f m) = nrows m /\ ncols (map_values f m) = ncols m /\ (wf m -> wf (map_values f m)) /\
+  (wf m -> r < nrows m -> c < ncols m -> get K (map_values f m) r c = f (get K m r c)).
+Proof.
+  intros T K f m r c. destruct (map_values_shape f m) as [H1 [H2 H3]].
+  repeat split; try assumption. exact (get_map_values K f m r c).
+Qed.
+
+Theorem C03_scalar_ops : forall (T : Type) (K : Ops T) (m : dm T) (x : T) r c,
+  wf m -> r < nrows m -> c < ncols m ->
+  get K (add_scalar K m x) r c = oadd K (get K m r c) x /\ get K (sub_scalar K m x) r c = osub K (get K m r c) x /\
+  get K (mul_scalar K m x) r c = omul K (get K m r c) x /\ get K (div_scalar K m x) r c = odiv K (get K m r c) x /\
+  get K (negative K m) r c = oneg K (get K m r c) /\ get K (abs K m) r c = oabs K (get K m r c) /\
+  get K (pow K m x) r c = opow K (get K m r c) x.
+Proof.
+  intros T K m x r c Hwf Hr Hc. repeat split.
+  - exact (get_add_scalar K m x r c Hwf Hr Hc).
+  - exact (get_sub_scalar K m x r c Hwf Hr Hc).
+  - exact (get_mul_scalar K m x r c Hwf Hr Hc).
+  - exact (get_div_scalar K m x r c Hwf Hr Hc).
+  - exact (get_negative K m r c Hwf Hr Hc).
+  - exact (get_abs K m r c Hwf Hr Hc).
+  - exact (get_pow K m x r c Hwf Hr Hc).
+Qed.
+
+Theorem C03_binarize_view : forall (T : Type) (K : Ops T) (m : dm T) (t : T),
+  nrows (binarize K m t) = nrows m /\ ncols (binarize K m t) = ncols m /\ wf (binarize K m t) /\
+  forall r c, r < nrows m -> c < ncols m ->
+    get K (binarize K m t) r c = if oltb K t (get K m r c) then o1 K else o0 K.
+Proof. intros T K. exact (binarize_spec K). Qed.
+
+(* ================= equality tests ================= *)
+
+Theorem C03_equality_shape_mismatch_false : forall (T : Type) (K : Ops T) (a b : dm T) (err : T),
+  (nrows a <> nrows b \/ ncols a <> ncols b) ->
+  approximate_eq K a b err = false /\ eq_dm K err a b = false.
+Proof. intros T K a b err H. split; [exact (approximate_eq_shape K a b err H) | exact (eq_dm_shape K err a b H)]. Qed.
+
+Theorem C03_approximate_eq_R : forall (a b : dm R) (err : R), nrows a = nrows b -> ncols a = ncols b ->
+  (approximate_eq ROps a b err = true <->
+   forall r c, r < nrows a -> c < ncols a -> (Rabs (get ROps a r c - get ROps b r c) <= err)%R).
+Proof. exact approximate_eq_R. Qed.
+
+(* ================= BaseVector for Vec<T> ================= *)
+
+Theorem C03_vector_contracts : forall (T : Type) (K : Ops T) (f : T -> T -> T) (a b : list T) (err : T),
+  (vdot K a b = None <-> length a <> length b) /\
+  (length a = length b -> vdot K a b = Some (osumn K (length a) (fun i => omul K (nth i a (o0 K)) (nth i b (o0 K))))) /\
+  (vzip f a b = None <-> length a <> length b) /\
+  (length a = length b -> exists l, vzip f a b = Some l /\ length l = length a /\
+       forall d i, i < length a -> nth i l d = f (nth i a d) (nth i b d)) /\
+  vcopy_from a b = (if length a =? length b then Some b else None) /\
+  (length a <> length b -> vapprox_eq K a b err = false).
+Proof.
+  intros T K f a b err.
+  split; [exact (vdot_none_iff K a b)|]. split; [exact (vdot_spec K a b)|].
+  split; [exact (vzip_none_iff f a b)|]. split; [exact (vzip_spec f a b)|].
+  split; [exact (vcopy_from_spec a b) | exact (vapprox_eq_length K a b err)].
+Qed.
+
+Theorem C03_vector_take : forall (T : Type) (K : Ops T) (a : list T) (index : list nat),
+  ((exists i, In i index /\ length a <= i) -> vtake K a index = None) /\
+  ((forall i, In i index -> i < length a) -> vtake K a index = Some (map (fun i => nth i a (o0 K)) index)).
+Proof. intros T K. exact (vtake_spec K). Qed.
+
+(* ================= reductions over R: independent of the storage order ================= *)
+
+(* sum folds the column-major storage; it equals the row-by-row double sum over the logical view
+   (finite-sum swap), hence sum(A^T) = sum(A) *)
+Theorem C03_sum_storage_independent : forall m : dm R, wf m ->
+  sum ROps m = rsum (nrows m) (fun r => rsum (ncols m) (fun c => get ROps m r c)) /\
+  sum ROps m = rsum (ncols m) (fun c => rsum (nrows m) (fun r => get ROps m r c)) /\
+  sum ROps (transpose ROps m) = sum ROps m.
+Proof. intros m H. split; [exact (sum_view m H)|]. split; [exact (sum_view_cols m H) | exact (sum_transpose m H)]. Qed.
+
+Theorem C03_norm2_view : forall m : dm R, wf m ->
+  norm2 ROps m = sqrt (rsum (nrows m) (fun r => rsum (ncols m) (fun c => (get ROps m r c ^ 2)%R))).
+Proof. exact norm2_view. Qed.
+
+Theorem C03_max_min_view : forall m : dm R, wf m -> 0 < nrows m * ncols m ->
+  (exists v, Model.max ROps m = Some v /\
+     (forall r c, r < nrows m -> c < ncols m -> (get ROps m r c <= v)%R) /\
+     (exists r c, r < nrows m /\ c < ncols m /\ get ROps m r c = v)) /\
+  (exists v, Model.min ROps m = Some v /\
+     (forall r c, r < nrows m -> c < ncols m -> (v <= get ROps m r c)%R) /\
+     (exists r c, r < nrows m /\ c < ncols m /\ get ROps m r c = v)).
+Proof. intros m H1 H2. split; [exact (max_spec m H1 H2) | exact (min_spec m H1 H2)]. Qed.
+
+Theorem C03_inf_norms_view : forall m : dm R, wf m -> 0 < nrows m * ncols m ->
+  (exists v, norm_pinf ROps m = Some v /\
+     (forall r c, r < nrows m -> c < ncols m -> (Rabs (get ROps m r c) <= v)%R) /\
+     (exists r c, r < nrows m /\ c < ncols m /\ Rabs (get ROps m r c) = v)) /\
+  (exists v, norm_ninf ROps m = Some v /\
+     (forall r c, r < nrows m -> c < ncols m -> (v <= Rabs (get ROps m r c))%R) /\
+     (exists r c, r < nrows m /\ c < ncols m /\ Rabs (get ROps m r c) = v)).
+Proof. intros m H1 H2. split; [exact (norm_pinf_spec m H1 H2) | exact (norm_ninf_spec m H1 H2)]. Qed.
+
+(* ================= statistics over R ================= *)
+
+Theorem C03_column_mean_formula : forall (m : dm R) c, c < ncols m ->
+  length (column_mean ROps m) = ncols m /\
+  nth c (column_mean ROps m) 0%R = (rsum (nrows m) (fun r => get ROps m r c) / INR (nrows m))%R.
+Proof. intros m c H. split; [exact (column_mean_length m) | exact (column_mean_nth m c H)]. Qed.
+
+(* mean along either axis (axis0 = true: one value per column) *)
+Theorem C03_mean_formula : forall (m : dm R) (axis0 : bool) i, i < n_lines m axis0 ->
+  length (mean ROps m axis0) = n_lines m axis0 /\
+  nth i (mean ROps m axis0) 0%R
+  = (rsum (line_len m axis0) (fun j => line ROps m axis0 i j) / INR (line_len m axis0))%R.
+Proof. intros m ax i H. split; [exact (mean_length m ax) | exact (mean_nth m ax i H)]. Qed.
+
+(* over R the coded one-pass variance (sum x^2 / n - (sum x / n)^2) IS the definition: the mean of the
+   squared deviations from the mean.  (An identity of exact arithmetic only; in binary64 the one-pass
+   form cancels under a large common offset: known finding matrix-var-cancellation.) *)
+Theorem C03_var_one_pass_is_definition : forall (m : dm R) (axis0 : bool) i,
+  i < n_lines m axis0 -> 0 < line_len m axis0 ->
+  length (var ROps m axis0) = n_lines m axis0 /\
+  nth i (var ROps m axis0) 0%R
+  = (rsum (line_len m axis0) (fun j => (line ROps m axis0 i j - line_mean m axis0 i) ^ 2) / INR (line_len m axis0))%R /\
+  (0 <= nth i (var ROps m axis0) 0%R)%R /\
+  nth i (std ROps m axis0) 0%R = sqrt (nth i (var ROps m axis0) 0%R).
+Proof.
+  intros m ax i H1 H2. split; [exact (var_length m ax)|]. split; [exact (var_nth m ax i H1 H2)|].
+  split; [exact (var_nonneg m ax i H1 H2) | exact (std_nth m ax i H1)].
+Qed.
+
+Theorem C03_scale_view : forall (m : dm R) (mean_ std_ : list R) (axis0 : bool),
+  (n_lines m axis0 <= length mean_ -> n_lines m axis0 <= length std_ ->
+     exists m', scale ROps m mean_ std_ axis0 = Some m' /\ nrows m' = nrows m /\ ncols m' = ncols m /\ wf m' /\
+       forall r c, r < nrows m -> c < ncols m ->
+         get ROps m' r c
+         = ((get ROps m r c - nth (if axis0 then c else r) mean_ 0) / nth (if axis0 then c else r) std_ 0)%R) /\
+  ((length mean_ < n_lines m axis0 \/ length std_ < n_lines m axis0) -> 0 < line_len m axis0 ->
+     scale ROps m mean_ std_ axis0 = None).
+Proof. intros m mu sd ax. split; [exact (scale_spec m mu sd ax) | exact (scale_none m mu sd ax)]. Qed.
+
+(* covariance: the unbiased formula on both triangles, symmetric; a matrix without rows is rejected *)
+Theorem C03_cov_formula_symmetric : forall (m : dm R) m1, nrows m = S m1 ->
+  exists C, cov ROps m = Some C /\ nrows C = ncols m /\ ncols C = ncols m /\ wf C /\
+    (forall i j, i < ncols m -> j < ncols m ->
+       get ROps C i j
+       = (rsum (nrows m) (fun k => (get ROps m k i - col_mu m i) * (get ROps m k j - col_mu m j)) / INR m1)%R) /\
+    (forall i j, i < ncols m -> j < ncols m -> get ROps C i j = get ROps C j i).
+Proof. exact cov_spec. Qed.
+
+(* BaseVector mean / var / std: the (repaired) two-pass variance is the definition, and it is invariant
+   under adding a common offset to every element *)
+Theorem C03_vector_var_two_pass : forall (a : list R) (c : R),
+  vmean ROps a = (rsum (length a) (fun i => nth i a 0) / INR (length a))%R /\
+  vvar ROps a = (rsum (length a) (fun i => (nth i a 0 - vmean ROps a) ^ 2) / INR (length a))%R /\
+  (0 <= vvar ROps a)%R /\ vstd ROps a = sqrt (vvar ROps a) /\
+  vvar ROps (map (fun x => (x + c)%R) a) = vvar ROps a.
+Proof.
+  intros a c. split; [exact (vmean_def a)|]. split; [exact (vvar_def a)|]. split; [exact (vvar_nonneg a)|].
+  split; [exact (vstd_def a) | exact (vvar_shift a c)].
+Qed.
+
+(* ================= argmax, unique, softmax over R ================= *)
+
+(* argmax returns, for every row, the FIRST column holding the row maximum *)
+Theorem C03_argmax_first_maximum : forall (m : dm R) r, r < nrows m -> 0 < ncols m ->
+  length (argmax ROps m) = nrows m /\
+  let k := nth r (argmax ROps m) 0 in
+  k < ncols m /\
+  (forall c, c < ncols m -> (get ROps m r c <= get ROps m r k)%R) /\
+  (forall c, c < k -> (get ROps m r c < get ROps m r k)%R).
+Proof. intros m r H1 H2. split; [exact (argmax_length m) | exact (argmax_spec m r H1 H2)]. Qed.
+
+(* unique: strictly increasing (hence duplicate-free) with exactly the entries of the matrix as support *)
+Theorem C03_unique_sorted_support : forall (m : dm R),
+  StronglySorted Rlt (unique ROps m) /\ NoDup (unique ROps m) /\
+  (wf m -> forall x, In x (unique ROps m) <-> exists r c, r < nrows m /\ c < ncols m /\ get ROps m r c = x).
+Proof.
+  intros m. destruct (unique_sorted m) as [H1 H2]. split; [exact H1|]. split; [exact H2|].
+  intros Hwf x. exact (In_unique_get m x Hwf).
+Qed.
+
+Theorem C03_vector_unique : forall (a : list R),
+  StronglySorted Rlt (vunique ROps a) /\ NoDup (vunique ROps a) /\ (forall x, In x (vunique ROps a) <-> In x a).
+Proof. exact vunique_spec. Qed.
+
+(* softmax of any non-empty real matrix is a probability vector, and the shift is by the maximum entry:
+   every exponent is <= 0, one is 0, so the normaliser is >= 1 (no 0/0, the repaired defect D5) *)
+Theorem C03_softmax_probability : forall (m : dm R), wf m -> 0 < nrows m * ncols m ->
+  exists mx s,
+    fold1 (omax ROps) (values m) = Some mx /\ is_max_entry m mx /\
+    softmax ROps m = Some s /\ nrows s = nrows m /\ ncols s = ncols m /\ wf s /\
+    (1 <= softmax_z m mx)%R /\
+    (forall r c, r < nrows m -> c < ncols m ->
+       get ROps s r c = (exp (get ROps m r c - mx) / softmax_z m mx)%R /\
+       (get ROps m r c - mx <= 0)%R /\ (0 < exp (get ROps m r c - mx) <= 1)%R /\
+       (0 < get ROps s r c <= 1)%R) /\
+    fold_left Rplus (row_major ROps s) 0%R = 1%R /\
+    osumn ROps (nrows s) (fun r => osumn ROps (ncols s) (fun c => get ROps s r c)) = 1%R.
+Proof. exact softmax_spec. Qed.
+
+(* ================= the hypotheses are satisfiable ================= *)
+(* ex23 = [[1,2,3],[4,5,6]] stored column-major *)
+Example C03_ex_wf : wf ex23 /\ 0 < nrows ex23 * ncols ex23 /\ nrows ex23 = S 1 /\ 1 < n_lines ex23 true /\ 0 < line_len ex23 true.
+Proof. split; [exact ex23_wf|]. cbn. lia. Qed.
+Example C03_ex_stats :
+  nth 0 (mean ROps ex23 true) 0%R = (5 / 2)%R /\ nth 0 (var ROps ex23 true) 0%R = (9 / 4)%R /\
+  nth 1 (mean ROps ex23 false) 0%R = 5%R /\ nth 1 (var ROps ex23 false) 0%R = (2 / 3)%R.
+Proof. destruct mean_var_ex23 as [H1 [H2 [H3 [H4 _]]]]. repeat split; assumption. Qed.
+Example C03_ex_sum : sum ROps ex23 = 21%R /\ sum ROps (transpose ROps ex23) = sum ROps ex23.
+Proof. exact sum_view_ex23. Qed.
+Example C03_ex_cov : exists C, cov ROps ex23 = Some C /\ get ROps C 0 1 = (9 / 2)%R /\ get ROps C 1 0 = (9 / 2)%R /\ get ROps C 2 2 = (9 / 2)%R.
+Proof. exact cov_ex23. Qed.
+Example C03_ex_argmax_tie : argmax ROps (mkdm 1 3 [2; 5; 5]%R) = [1].
+Proof. exact argmax_ex_tie. Qed.
+Example C03_ex_unique : unique ROps (mkdm 2 2 [1; 3; 3; 2]%R) = [1; 2; 3]%R.
+Proof. exact unique_ex_2x2. Qed.
+Example C03_ex_softmax : softmax ROps (mkdm 1 2 [0; 0]%R) = Some (mkdm 1 2 [/ 2; / 2]%R).
+Proof. exact softmax_ex_1x2. Qed.
+(* generic instance over nat: non-symmetric 2x3 by 3x2 product, a transposed product, dot of a row with a
+   column, and the rejected pairings (D14: a 1x4 row with a 2x2 matrix) *)
+Example C03_ex_products :
+  matmul NatOps exA exB = Some (mkdm 2 2 [5; 14; 11; 23]) /\ matmul NatOps exA exA = None /\
+  ab NatOps exA true exA false = Some (mkdm 3 3 [17; 22; 27; 22; 29; 36; 27; 36; 45]) /\
+  dot NatOps (mkdm 1 3 [1; 2; 3]) (mkdm 3 1 [4; 5; 6]) = Some 32 /\
+  dot NatOps (mkdm 1 4 [1; 2; 3; 4]) (mkdm 2 2 [5; 7; 6; 8]) = None /\
+  add NatOps exA exB = None /\ approximate_eq NatOps exA exB 100 = false.
+Proof. repeat split; reflexivity. Qed.
+Example C03_ex_structure :
+  transpose NatOps exA = mkdm 3 2 [1; 2; 3; 4; 5; 6] /\
+  reshape NatOps exA 3 2 = Some (mkdm 3 2 [1; 3; 5; 2; 4; 6]) /\ reshape NatOps exA 4 2 = None /\
+  row_major NatOps exA = [1; 2; 3; 4; 5; 6] /\
+  slice NatOps exA 0 2 1 3 = Some (mkdm 2 2 [2; 5; 3; 6]) /\ slice NatOps exA 0 3 0 1 = None /\
+  take NatOps exA [2; 0; 2] false = Some (mkdm 2 3 [3; 6; 1; 4; 3; 6]) /\ take NatOps exA [2] true = None /\
+  h_stack NatOps exA exA = Some (mkdm 2 6 [1; 4; 2; 5; 3; 6; 1; 4; 2; 5; 3; 6]) /\ h_stack NatOps exA exB = None /\
+  from_vec NatOps 2 3 [1; 2; 3; 4; 5; 6] = Some exA /\ from_vec NatOps 2 3 [1; 2; 3] = None.
+Proof. repeat split; reflexivity. Qed.
